@@ -21,6 +21,7 @@ open SoupVerif
 #print axioms C17.enabled_or_disabled_iff_control
 #print axioms C17.enabled_xor_disabled
 #print axioms C17.typeIs_ascii
+#print axioms C17.typeIs_ascii_unique
 #print axioms C17.readwrite_readonly_partition
 #print axioms C17.readwrite_false_of_not_html
 #print axioms C17.readonly_false_of_not_html
@@ -47,6 +48,7 @@ open SoupVerif
 #print axioms C17.rangeState_isSome_iff
 #print axioms C17.range_same_attribute
 #print axioms C17.range_type_consistent
+#print axioms C17.range_type_some
 #print axioms C17.placeholder_def
 #print axioms C17.inFormRel_eq
 #print axioms C17.defaultForm_isSome_of_rel
@@ -109,6 +111,10 @@ open SoupVerif
 #print axioms StateLaws.attrEq_empty
 #print axioms StateLaws.attrEq_ascii_ic
 #print axioms StateLaws.attrEq_exact
+#print axioms StateLaws.attrVal_eq_head?
+#print axioms StateLaws.hasAttr_eq_any
+#print axioms StateLaws.attrEq_of_unique
+#print axioms StateLaws.attrEmpty_of_unique
 #print axioms StateLaws.htmlOnly_isHtml
 #print axioms StateLaws.htmlOnly_isXml
 #print axioms StateLaws.htmlOnly_env
@@ -124,7 +130,9 @@ open SoupVerif
 #print axioms StateLaws.htmlOnly_attrByName
 #print axioms StateLaws.htmlOnly_isRoot
 #print axioms StateLaws.htmlOnly_matchAttributeName
+#print axioms StateLaws.htmlOnly_matchAttributeValues
 #print axioms StateLaws.htmlOnly_attrVal
+#print axioms StateLaws.htmlOnly_attrVals
 #print axioms StateLaws.htmlOnly_hasAttr
 #print axioms StateLaws.htmlOnly_attrEq
 #print axioms StateLaws.htmlOnly_tagDescendants
@@ -321,6 +329,20 @@ example : rangeState ctxK kelvinTyped = none := by decide +kernel
 def weekTyped : Elem := inputE [sAttr "type" "WeeK", sAttr "min" "2020-W01", sAttr "value" "2021-W01"]
 example : rangeCompoundHolds ctx weekTyped = true := by decide +kernel
 example : rangeState ctx weekTyped = some false := by decide +kernel
+
+/-- Two attributes named `type` (a hand-edited `attrs` dictionary `{'type': 'date', 'TYPE': 'week', …}`
+    in a non-XML document; no parser produces it).  Since the repair of `match_attribute_name` the
+    selector `[type=week]` accepts when ANY of them has the value, `match_range` reads the first one
+    (`get_attribute_by_name`) and dispatches on `date`: the uniqueness hypothesis of
+    `range_type_consistent` / `scanIsSubmit_eq_typeIs` is needed.
+    (Real soupsieve: `[type=week]` True, `[type=date]` True, `:in-range` False, `:out-of-range` False.) -/
+def twoTyped : Elem := inputE [sAttr "type" "date", sAttr "TYPE" "week", sAttr "min" "2020-W01", sAttr "value" "2021-W01"]
+example : attrVals ctx twoTyped "type" = ["date".toStr, "week".toStr] := by decide +kernel
+example : typeIs ctx twoTyped "week" = true ∧ typeIs ctx twoTyped "date" = true := by decide +kernel
+example : (match lowerE ((ctx.attrByName twoTyped "type".toStr).getD (.str [])) with
+    | .ok t => t == "date".toStr | .error _ => false) = true := by decide +kernel
+example : rangeCompoundHolds ctx twoTyped = true := by decide +kernel
+example : rangeState ctx twoTyped = none := by decide +kernel
 
 /-! ### `:required`: applies to every `input`, also where HTML says `required` does not apply -/
 example : matchList ctx top (inputE [sAttr "type" "hidden", sAttr "required" ""]) Gen.CSS_REQUIRED = true := by
